@@ -83,7 +83,7 @@ def setupFields (cfg : Cfg) : List String :=
 
 def xdmaStreamerFields (nm : String) (s : Streamer) : List String :=
   idx nm "sstride" s.sdim ++ idx nm "bound" s.tdim ++ idx nm "tstride" s.tdim
-    ++ [nm ++ "_enabled_chan"]
+    ++ (if s.cmask then [nm ++ "_enabled_chan"] else [])      -- fix F14 (d3cca53): only with HasChannelMask
     ++ (if s.bmask then [nm ++ "_enabled_byte"] else [])
     ++ [nm ++ "_bypass"]
     ++ s.exts.flatMap (fun e => idx nm e.1 e.2)
